@@ -15,7 +15,7 @@ TRUSTED = [
 ]
 
 
-FREE_ROUNDS = {"C09": (150, 1500), "C12": (150, 1500)}   # family -> (quick, thorough) rounds of free-running stress
+FREE_ROUNDS = {"C09": (150, 1500), "C12": (150, 1500), "C11": (40, 400), "C06": (60, 600)}   # family -> (quick, thorough) rounds of free-running stress
 
 
 def z(n):
